@@ -265,7 +265,10 @@ MC_INIT
                     }
                     else
                         for (int b : bs)
+                        {
                             check_text(t, pl + sl, b);
+                            check_text(t, pl + sl, b, false); // endptr == NULL
+                        }
                     check_ato(t, pl + sl);
                 }
             }
@@ -346,6 +349,7 @@ MC_INIT
                                 if (s.size() > 90)
                                     continue;
                                 check_text((const uint8_t *)s.data(), s.size(), b);
+                                check_text((const uint8_t *)s.data(), s.size(), b, false); // endptr == NULL
                                 // base 0 when the text itself selects the same base
                                 if ((b == 16 && pf == 3) || (b == 8 && (pf == 1 || pf == 2)) || (b == 10 && pf == 0))
                                     check_text((const uint8_t *)s.data(), s.size(), 0);
@@ -452,6 +456,38 @@ MC_INIT
         W = W_SMALL;
         TI.wipe();
         TR.wipe();
+        end_case();
+    });
+
+    // (6) EVERY byte value after a digit (and alone, after a sign, between digits) for every function and EVERY base 0,2..36:
+    //     the digit decoder must stop at each of the 256-36 bytes that are not digits of the base - punctuation between
+    //     'Z' and 'a', '@', '/', ':', '`', '{', high-bit bytes - not only at the ones in the text alphabet
+    mc::add_check("strto_every_byte_after_digit", [] {
+        begin_case();
+        int c0 = mc::choose(255);
+        uint8_t b = (uint8_t)(c0 + 1);
+        mc::describe("byte 0x%02x alone, after a sign, after 0/1/9/z, between two digits, after 0x: bases 0 and 2..36, 6 strto* with and without endptr + atoi/atol, before/after guard", b);
+        mc::nontrivial();
+        static const char *PRE[8] = {"", "-", "0", "1", "9", "z", "0x", "10"};
+        for (PL = AFTER; PL <= BEFORE; PL++)
+            for (const char *pre : PRE)
+                for (int tail = 0; tail < 2; tail++)
+                {
+                    uint8_t t[8];
+                    size_t l = strlen(pre);
+                    memcpy(t, pre, l);
+                    t[l++] = b;
+                    if (tail)
+                        t[l++] = '1';
+                    for (int base = 0; base <= 36; base++)
+                    {
+                        if (base == 1)
+                            continue;
+                        check_text(t, l, base, true);
+                        check_text(t, l, base, false);
+                    }
+                    check_ato(t, l);
+                }
         end_case();
     });
 }
